@@ -459,3 +459,92 @@ def c10_r6(ctx):
             if not mf or not ig:
                 ctx.viol('%s|feedback-marks' % name, f.at,
                          'iterate must mark the feedback edge (no Terminate through it) and ignore the output destination in the body End', None)
+
+
+def flag_strategy_agreement(ctx):
+    """the scheduler wires a block by its `is_only_one_strategy` flag while End routes by its NextStrategy: both must be
+    derived from the same strategy value for the same block (two sites that each look fine alone)"""
+    facts = ctx.facts
+    n = 0
+    for f in facts.lib_fns():
+        if f.crate != 'renoir' or f.kind != 'assoc':
+            continue
+        writes = []
+        for bi, blk in enumerate(f.blocks):
+            if blk['cleanup']:
+                continue
+            for s in blk['s']:
+                if s['k'] == 'assign' and not is_local(s['lhs']) and s['lhs'][-1][0:1] == ['f'] and s['lhs'][-1][2] == 'is_only_one_strategy':
+                    writes.append((bi, s))
+        if not writes:
+            continue
+        sym = q.sym(facts, f)
+        for bi, s in writes:
+            n += 1
+            blk_local = s['lhs'][0]
+            # (a) which strategy decides the flag
+            flag_src = set()
+            o = s['rv'].get('o')
+            vloc = q.base_local(f, o) if (s['rv']['r'] == 'use' and o and o[0] != 'k') else None
+            if vloc is not None:
+                for (db, ds) in f.defs().get(vloc, []):
+                    node = f.def_node((db, ds))
+                    if ds != 'T' and node['rv']['r'] == 'use' and node['rv']['o'][:2] == ['k', 'true']:
+                        for c in q.cond_of_block(facts, f, db):
+                            for a in c:
+                                if a[0] == 'is' and a[2] == 'OnlyOne':
+                                    flag_src.add(a[1].lstrip('&*'))
+            # (b) which strategy the End operator of that block was built with
+            end_src = set()
+            d = f.single_def(blk_local)
+            if d is not None and d[1] == 'T':
+                t = f.def_node(d)
+                for a in t['args']:
+                    x = strip(sym.operand(a))
+                    if x[0] == 'agg' and x[1][0] == 'closure':
+                        for cap in x[2]:
+                            r = render(strip(cap))
+                            if 'strategy' in r:
+                                end_src.add(r.lstrip('&*'))
+            ctx.inst('%s|%s' % (f.path, s['at']), {'function': f.path, 'flag decided by': sorted(flag_src), 'End built with': sorted(end_src)})
+            if flag_src and end_src and not (flag_src & end_src):
+                ctx.viol('%s|flag-strategy-mismatch|%s' % (f.path, sorted(end_src)[0]), s['at'],
+                         'the block whose End routes by `%s` gets its is_only_one_strategy flag from `%s`: the scheduler wires the block '
+                         '1:1 (or all-to-all) while End routes with the other strategy, so elements are silently dropped or mis-delivered '
+                         'when the consumer is replicated' % (sorted(end_src)[0], sorted(flag_src)[0]), None)
+    if n < 3:
+        raise Inconclusive('fewer than 3 assignments of is_only_one_strategy found (%d)' % n)
+
+
+@rule('C03', 'R5', 'a block\'s only-one wiring flag is derived from the same NextStrategy its End operator routes with')
+def c03_r5(ctx):
+    flag_strategy_agreement(ctx)
+
+
+@rule('C01', 'R4', 'wiring flag and routing strategy of every block boundary agree')
+def c01_r4(ctx):
+    flag_strategy_agreement(ctx)
+
+
+@rule('C19', 'R7', 'the scheduler-visible only-one flag agrees with the routing strategy of the block')
+def c19_r7(ctx):
+    flag_strategy_agreement(ctx)
+
+
+@rule('C19', 'R8', 'in-repo callers (lib, tests, examples, benches) of the forward-link combinators and the replication they pass', tier='thorough')
+def c19_r8(ctx):
+    facts = getattr(ctx.facts, 'all_targets', None) or ctx.facts
+    n = 0
+    for f in facts.fns:
+        sym = None
+        for bi, t in f.calls():
+            p = t['callee'].get('path') or ''
+            if p.endswith('>::replication') and 'Stream' in p or p.endswith('>::repartition_by'):
+                sym = sym or Sym(f, facts=facts)
+                arg = plan.replication_of(sym.operand(t['args'][1])) if len(t['args']) > 1 else ('?',)
+                n += 1
+                ctx.inst('%s|%s|%d' % (f.crate, f.path, n), {'caller': f.path, 'crate': f.crate, 'at': t['at'], 'replication argument': ':'.join(arg)})
+                if arg[0] == 'call' and arg[1] in ('new_limited', 'new_host') or arg == ('const', 'Host') or (arg[0] == 'const' and arg[1] == 'Limited'):
+                    ctx.note('caller %s passes %s to a forward-link combinator (exposed to known finding F5)' % (f.path, ':'.join(arg)))
+    if n < 5:
+        raise Inconclusive('fewer than 5 callers of Stream::replication found in all targets (%d)' % n)
